@@ -109,6 +109,9 @@ def run(c):
         "tier the same runs are repeated under go build -race",
         "in run(callback=…) builds the line writer delivers to the Events the project was loaded with; the relative order of "
         "those lines and the callback's target events is not judged (two consumers)",
+        "option sequences on one loaded project: every sequence of length 2 and 3 over {Run(l, nil), {}, {DryRun}, {Always}, {Always, DryRun}} "
+        "(library API, and the run(callback=…) builtin with and without its keywords mixed in); each run is judged for the options of THAT run "
+        "(evaluating <=> the spy saw the body run; no body in a dry run)",
         "which member of a dependency cycle detects it depends on the schedule: that one fact is taken from the observed error type",
         "a failure to record the result after a successful body is injected (a target body replaces its own record, already "
         "holding the in-progress marker, by a directory): evaluating then failed is the only legal sequence (Facts.saveOk); a "
@@ -119,7 +122,7 @@ def run(c):
         "line writer: every string over {a,\\n} up to length 6 (10 thorough) in every chunking, plus an empty chunk in every 7th case; "
         "every sequence of up to 4 (5) calls over six chunks and Flush (writer reused after Flush); seeded random long outputs over 8 symbols. "
         "events: seeded random projects on disk (2-8 targets in 1-2 packages, random DAG, chunks with/without trailing newline, failing bodies, bodies that make the recording of their result fail, bodies that run a real process through os.exec / sh.exec, "
-        "target-level always, sources, sometimes a missing dependency, a dependency cycle, a source whose up-to-date check fails), "
+        "target-level always, sources, sometimes a missing dependency (an unrelated name or a near miss of an existing target's name: a typo, another case, an underscore), a dependency cycle, a source whose up-to-date check fails), "
         "each built through dawn.Load + Project.Run: dry run, build, dry run, rebuild of the unchanged tree, then a random subset of "
         "sub-target build, edit+build, always, second Run without reload, run(callback=…). A case is non-trivial when the model answer is "
         "not empty; distinct by driver input line.")
